@@ -356,6 +356,123 @@ example : OffPath "/a".toList (segments "/ab/x".toList) := by
       ["ab".toList, "x".toList, "index".toList] from by simp]
     decide
 
+/-! ### scoping, all graphs (dispatchers included) -/
+
+theorem slashes_app (a b : List Name) : slashes (a ++ b) = slashes a ++ slashes b := by
+  simp [slashes]
+
+theorem sectionsFor_dropSection (secs : List (List Char × Conf)) (name : List Char) :
+    ∀ (segs : List Name) (cur : List Char),
+      (∀ i, name ≠ cur ++ slashes (segs.take (i + 1))) →
+      sectionsFor (secs.filter fun p => p.1 ≠ name) cur segs = sectionsFor secs cur segs := by
+  intro segs
+  induction segs with
+  | nil => intro _ _; rfl
+  | cons seg rest ih =>
+    intro cur h
+    simp only [sectionsFor]
+    have h0 : cur ++ '/' :: seg ≠ name := by
+      have := h 0
+      simpa [slashes] using (Ne.symm this)
+    rw [lookup_filter_ne _ _ _ h0]
+    rw [ih (cur ++ '/' :: seg) (by
+      intro i
+      have := h (i + 1)
+      simpa [slashes, List.append_assoc] using this)]
+
+theorem stepSections_dropSection (secs : List (List Char × Conf)) (name : List Char) (fp : List Name)
+    (hoff : ∀ j, name ≠ slashes (fp.take j)) (a c : Nat) :
+    sectionsFor (secs.filter fun p => p.1 ≠ name)
+        (if a ≠ 0 then '/' :: joinSlash (fp.take a) else []) ((fp.drop a).take c) =
+      sectionsFor secs (if a ≠ 0 then '/' :: joinSlash (fp.take a) else []) ((fp.drop a).take c) := by
+  by_cases hfp : fp.take a = []
+  · -- nothing consumed so far (a = 0 or fp = [])
+    by_cases ha : a = 0
+    · subst ha
+      simp only [ne_eq, not_true_eq_false, if_false, List.drop_zero]
+      apply sectionsFor_dropSection
+      intro i
+      have := hoff (min c (i + 1))
+      simpa [List.take_take, Nat.min_comm] using this
+    · have hnil : fp = [] := by
+        cases fp with
+        | nil => rfl
+        | cons x xs =>
+          cases a with
+          | zero => exact absurd rfl ha
+          | succ n => simp at hfp
+      subst hnil
+      simp [sectionsFor]
+  · have ha : a ≠ 0 := by
+      intro e; subst e; simp at hfp
+    simp only [ha, ne_eq, not_false_eq_true, if_true]
+    rw [joinSlash_cons_slashes _ hfp]
+    apply sectionsFor_dropSection
+    intro i
+    have := hoff (a + min c (i + 1))
+    rw [List.take_add, slashes_app] at this
+    simpa [List.take_take, Nat.min_comm] using this
+
+
+theorem walkStep_dropSection (tr : Name → Name) (app : App) (name : List Char) (fp : List Name)
+    (hoff : ∀ j, name ≠ slashes (fp.take j)) (st : WalkSt) (n : Name) (rest : List Name) :
+    walkStep tr (dropSection app name) fp st n rest = walkStep tr app fp st n rest := by
+  unfold walkStep
+  dsimp only
+  rw [show (dropSection app name).g = app.g from rfl]
+  cases resolve tr app.g st.node n rest with
+  | error e => rfl
+  | ok r =>
+    obtain ⟨sub, iter1, ps⟩ := r
+    dsimp only
+    split
+    · rfl
+    · rw [show (dropSection app name).sections = app.sections.filter (fun p => p.1 ≠ name) from rfl,
+        stepSections_dropSection app.sections name fp hoff]
+
+theorem walk_dropSection (tr : Name → Name) (app : App) (name : List Char) (fp : List Name)
+    (hoff : ∀ j, name ≠ slashes (fp.take j)) :
+    ∀ (fuel : Nat) (st : WalkSt),
+      walk tr (dropSection app name) fp fuel st = walk tr app fp fuel st := by
+  intro fuel
+  induction fuel with
+  | zero => intro st; rfl
+  | succ k ih =>
+    intro st
+    unfold walk
+    split
+    · rfl
+    · rw [walkStep_dropSection tr app name fp hoff]
+      split
+      · rfl
+      · exact ih _
+
+/-- **C08, scoped (all graphs).**  Dispatchers included: a section whose name is not a segment-wise path
+    prefix of the request (`OffPath`) can be removed from the application config without changing the
+    object trail, the handler, the virtual path or the effective config. -/
+theorem C08_scoped_general (tr : Name → Name) (glob : Conf) (app : App) (path : List Char)
+    (name : List Char) (hoff : OffPath name (segments path)) :
+    findHandlerWith tr (dropSection app name) path = findHandlerWith tr app path ∧
+    requestConfigWith tr glob (dropSection app name) path = requestConfigWith tr glob app path := by
+  have htr : trailOf tr (dropSection app name) (segments path) = trailOf tr app (segments path) := by
+    unfold trailOf
+    dsimp only
+    have hroot : rootEntry (dropSection app name) (fullpathOf (segments path)).length =
+        rootEntry app (fullpathOf (segments path)).length := by
+      unfold rootEntry dropSection
+      dsimp only
+      rw [lookup_filter_ne _ _ _ (Ne.symm hoff.1)]
+    rw [hroot, walk_dropSection tr app name _ hoff.2]
+    rfl
+  have hfh : findHandlerWith tr (dropSection app name) path = findHandlerWith tr app path := by
+    unfold findHandlerWith
+    dsimp only
+    rw [htr]
+    rfl
+  refine ⟨hfh, ?_⟩
+  unfold requestConfigWith
+  rw [hfh]
+
 /-! ### the toolbox -/
 
 theorem splitDot_some : ∀ {k n r : Name}, splitDot k = some (n, r) → k = n ++ '.' :: r ∧ '.' ∉ n := by
